@@ -848,7 +848,11 @@ where
                     } else if compare_no_case(&k, b":path") {
                         // RFC 9112 §3.2: fragment identifiers (`#`) are
                         // prohibited in request-targets.
-                        if v.contains(&b'#') {
+                        // ... and so are whitespace and control bytes: the H1
+                        // serializer writes the path between two spaces of the
+                        // request line, a space inside it yields a request line
+                        // the backend splits differently.
+                        if v.contains(&b'#') || v.iter().any(|&b| b <= 0x20 || b == 0x7f) {
                             metric_reject(RejectReason::InvalidPath);
                             *invalid_headers = true;
                             return;
